@@ -704,8 +704,9 @@ Proof.
   rewrite Hr. rewrite take_length. unfold be64. rewrite be_bytes_length. reflexivity.
 Qed.
 
-(* contrapositive: a packet carrying a sender's tag but differing from the sender's packet in
-   the authenticated portion or in the ROC it is indexed with is not accepted *)
+(* contrapositive: a packet that carries a sender's tag but whose authenticated portion (header,
+   CSRCs, extension, payload; or its length) differs from the sender's is not accepted with
+   that stream and key *)
 Corollary ideal_srtp_altered_rejected w st k m0 roc0 :
   let len := b_len (w_b w) in
   let src := cur_src (w_b w) in
@@ -716,12 +717,13 @@ Corollary ideal_srtp_altered_rejected w st k m0 roc0 :
   0 <= mki -> tag + mki <= len -> len < 18446744073709551616 ->
   zn tag = n -> length roc0 = 4%nat ->
   slice (zn (len - tag)) (zn tag) src = take n (hmac_sha1 (ak_key (k_rtp_a k)) (m0 ++ roc0)) ->
+  take (zn (len - tag - mki)) src <> m0 ->
   forall w' u,
-    unprotect_pre w = (w', inl u) -> lookup (w_s w) (u_ref u) = Some st -> u_k u = k ->
-    take (zn (len - tag - mki)) src = m0 /\ take 4 (be64 (u_est u * 65536)) = roc0.
+    unprotect_pre w = (w', inl u) -> lookup (w_s w) (u_ref u) = Some st -> u_k u = k -> False.
 Proof.
-  intros len src tag mki HA HK HT HM HS HL Hn Hr Htag w' u H Hl Ek. subst k.
-  exact (ideal_srtp_integrity w w' u st m0 roc0 H Hl HA HK HT HM HS HL Hn Hr Htag).
+  intros len src tag mki HA HK HT HM HS HL Hn Hr Htag Hne w' u H Hl Ek. subst k.
+  apply Hne.
+  exact (proj1 (ideal_srtp_integrity w w' u st m0 roc0 H Hl HA HK HT HM HS HL Hn Hr Htag)).
 Qed.
 
 Theorem ideal_srtcp_integrity w w' u m0 :
@@ -747,3 +749,75 @@ End Ideal.
 Print Assumptions ideal_srtp_integrity.
 Print Assumptions ideal_srtp_altered_rejected.
 Print Assumptions ideal_srtcp_integrity.
+
+(* ===================================================================== *)
+(* 9. non-vacuity                                                         *)
+(* ===================================================================== *)
+(* a receiver stream with two master keys (MKI ids 7,7 and 9,9), authentication only, 4-octet
+   HMAC-SHA1 tags; a 13-octet RTP packet (seq 1, ssrc 5) protected under the second key *)
+Definition ex_null_c : ckey := {| ck_alg := 0; ck_klen := 0; ck_rks := []; ck_salt := [] |}.
+Definition ex_key (kb : bytes) (id : bytes) : skeys :=
+  let a := {| ak_kind := SRTP_HMAC_SHA1_c; ak_key := kb; ak_klen := 4; ak_tag := 4; ak_prefix := 0 |} in
+  {| k_rtp_c := ex_null_c; k_rtp_a := a; k_xtn_c := None; k_rtcp_c := ex_null_c; k_rtcp_a := a;
+     k_salt := []; k_csalt := []; k_mki := id |}.
+Definition ex_k1 := ex_key [1;2;3;4]%N [7;7]%N.
+Definition ex_k2 := ex_key [5;6;7;8]%N [9;9]%N.
+Definition ex_stream : stream :=
+  {| s_ssrc := 5; s_clone := false; s_keys := [ex_k1; ex_k2]; s_limits := [mk_limit; mk_limit];
+     s_rdbx := {| index := 0; wlen := 128; mask := 0%N |}; s_rdb := rdb_init;
+     s_pending_roc := 0; s_dir := 0; s_rtp_serv := 2; s_rtcp_serv := 2;
+     s_use_mki := true; s_mki_size := 2; s_allow_repeat := false; s_cryptex := false; s_enc_xtn := [] |}.
+Definition ex_body : bytes := [128;0;0;1; 0;0;0;0; 0;0;0;5; 42]%N.
+Definition ex_packet (body : bytes) (id : bytes) : bytes :=
+  body ++ id ++ take 4 (hmac_sha1 [5;6;7;8]%N (ex_body ++ [0;0;0;0]%N)).
+Definition ex_world (pkt : bytes) : world :=
+  {| w_s := {| ss_template := None; ss_list := [ex_stream]; ss_cap := 2 |};
+     w_b := {| b_src := []; b_dst := pkt; b_alias := true; b_len := 19; b_cap := 19; b_oob := false |};
+     w_ev := []; w_iv := [];
+     w_h := {| h_live := 0; h_att := 0; h_fail := 0; h_frees := 0; h_dirty := 0 |} |}.
+
+(* the genuine packet is accepted, with key index 1 (the key its MKI names) and index 1 *)
+Example ex_accept :
+  match unprotect_pre (ex_world (ex_packet ex_body [9;9]%N)) with
+  | (_, inl u) => u_ki u = 1 /\ u_k u = ex_k2 /\ u_est u = 1 /\ u_ref u = RList 5
+  | _ => False
+  end.
+Proof. vm_compute. repeat split. Qed.
+
+(* one payload bit flipped: authentication failure *)
+Example ex_altered_payload :
+  snd (unprotect_pre (ex_world (ex_packet [128;0;0;1; 0;0;0;0; 0;0;0;5; 43]%N [9;9]%N))) = inr st_auth_fail.
+Proof. vm_compute. reflexivity. Qed.
+
+(* the MKI rewritten to name the other key: authentication failure (the tag was made under key 2) *)
+Example ex_altered_mki :
+  snd (unprotect_pre (ex_world (ex_packet ex_body [7;7]%N))) = inr st_auth_fail.
+Proof. vm_compute. reflexivity. Qed.
+
+(* SRTCP: 8-octet header (ssrc 5), trailer E=0 / index 1, MKI 9,9, tag under the second key *)
+Definition ex_rtcp_body (tr : bytes) : bytes := [128;200;0;1; 0;0;0;5]%N ++ tr.
+Definition ex_rtcp_packet (tr : bytes) : bytes :=
+  ex_rtcp_body tr ++ [9;9]%N ++ take 4 (hmac_sha1 [5;6;7;8]%N (ex_rtcp_body [0;0;0;1]%N)).
+Definition ex_rtcp_world (pkt : bytes) : world :=
+  {| w_s := {| ss_template := None; ss_list := [ex_stream]; ss_cap := 2 |};
+     w_b := {| b_src := []; b_dst := pkt; b_alias := true; b_len := 18; b_cap := 18; b_oob := false |};
+     w_ev := []; w_iv := [];
+     w_h := {| h_live := 0; h_att := 0; h_fail := 0; h_frees := 0; h_dirty := 0 |} |}.
+Example ex_rtcp_accept :
+  match unprotect_rtcp_pre (ex_rtcp_world (ex_rtcp_packet [0;0;0;1]%N)) with
+  | (_, inl u) => c_seq u = 1 /\ c_conf u = false /\ c_tag_len u = 4 /\ c_mki u = 2
+  | _ => False
+  end.
+Proof. vm_compute. repeat split. Qed.
+(* index in the trailer altered: authentication failure *)
+Example ex_rtcp_altered_index :
+  snd (unprotect_rtcp_pre (ex_rtcp_world (ex_rtcp_packet [0;0;0;2]%N))) = inr st_auth_fail.
+Proof. vm_compute. reflexivity. Qed.
+(* E bit set on a stream without confidentiality: refused (cant_check) before the tag is looked at *)
+Example ex_rtcp_altered_ebit :
+  snd (unprotect_rtcp_pre (ex_rtcp_world (ex_rtcp_packet [128;0;0;1]%N))) = inr st_cant_check.
+Proof. vm_compute. reflexivity. Qed.
+
+Check unprotect_pre_tag_matches.
+Check ideal_srtp_integrity.
+Check ideal_srtcp_integrity.
